@@ -35,6 +35,7 @@ type World struct {
 	loopOrds  map[*ssa.Function]map[*ssa.BasicBlock]int
 	autoInline map[string]bool
 	Findings  map[string]Finding
+	Aliases   map[string]map[string]string // package path -> import alias -> imported path
 }
 
 func loadWorld(repoDir, libDir string, patterns []string, overlay map[string][]byte) (*World, error) {
@@ -60,7 +61,7 @@ func loadWorld(repoDir, libDir string, patterns []string, overlay map[string][]b
 	}
 	prog, spkgs := ssautil.Packages(pkgs, ssa.NaiveForm|ssa.GlobalDebug)
 	w := &World{Prog: prog, Pkgs: pkgs, SSAPkgs: map[string]*ssa.Package{}, TypesPkgs: map[string]*types.Package{}, funcs: map[string]*ssa.Function{}, RepoDir: repoDir,
-		autoInline: map[string]bool{}, Findings: map[string]Finding{}, exprText: map[*ssa.Function]map[ssa.Value]string{}, loopOrds: map[*ssa.Function]map[*ssa.BasicBlock]int{}}
+		autoInline: map[string]bool{}, Findings: map[string]Finding{}, Aliases: map[string]map[string]string{}, exprText: map[*ssa.Function]map[ssa.Value]string{}, loopOrds: map[*ssa.Function]map[*ssa.BasicBlock]int{}}
 	pkgDirs := map[string]string{}
 	for i, sp := range spkgs {
 		if sp == nil {
@@ -76,6 +77,21 @@ func loadWorld(repoDir, libDir string, patterns []string, overlay map[string][]b
 	for _, p := range prog.AllPackages() {
 		w.TypesPkgs[p.Pkg.Path()] = p.Pkg
 	}
+	packages.Visit(pkgs, nil, func(p *packages.Package) {
+		if !strings.HasPrefix(p.PkgPath, modPath) {
+			return
+		}
+		m := map[string]string{}
+		for _, f := range p.Syntax {
+			for _, is := range f.Imports {
+				path := strings.Trim(is.Path.Value, "\"")
+				if is.Name != nil && is.Name.Name != "_" && is.Name.Name != "." {
+					m[is.Name.Name] = path
+				}
+			}
+		}
+		w.Aliases[p.PkgPath] = m
+	})
 	// contract files of dependencies inside the module are loaded too (their contracts are used at call sites)
 	packages.Visit(pkgs, nil, func(p *packages.Package) {
 		if strings.HasPrefix(p.PkgPath, modPath) && len(p.GoFiles) > 0 {
@@ -181,6 +197,11 @@ func (w *World) lookupType(tx *TypeX, pkgPath string) (types.Type, error) {
 			q, n := name[:i], name[i+1:]
 			// q is an import name (or a full path)
 			var cands []*types.Package
+			if ap, ok := w.Aliases[pkgPath][q]; ok {
+				if p, ok := w.TypesPkgs[ap]; ok {
+					cands = append(cands, p)
+				}
+			}
 			if p, ok := w.TypesPkgs[q]; ok {
 				cands = append(cands, p)
 			}
@@ -235,6 +256,9 @@ var funcKeyRe = regexp.MustCompile(`^([\w./\-]+)\.([\w$]+)$`)
 // resolveContractKeys rewrites keys written with an import name (crypto.PrivKey) to full package paths.
 func (w *World) resolveContractKeys() {
 	resolve := func(q, from string) string {
+		if p, ok := w.Aliases[from][q]; ok {
+			return p
+		}
 		if self := w.TypesPkgs[from]; self != nil && !strings.Contains(q, "/") {
 			for _, imp := range self.Imports() {
 				if imp.Name() == q {
